@@ -437,15 +437,21 @@ def verify_unit(unit, workdir, seed=0, keep=False):
         if canary_line and abs(e["line"] - canary_line) <= 3:
             canary_failed = True
             continue
-        owner = None
-        for it in items:
-            if it["out_lines"][0] <= e["line"] <= it["out_lines"][1]:
-                owner = it
-                break
+        # every generated line mentioned by the diagnostic (primary span and
+        # secondary spans such as "at the end of the function body")
+        mentioned = [e["line"]] + [int(x) for x in re.findall(r"^\s*(\d+) [|/]", e["text"], re.M)]
+        owners = []
+        for ml in mentioned:
+            for it in items:
+                if it["out_lines"][0] <= ml <= it["out_lines"][1] and it not in owners:
+                    owners.append(it)
+        fn_owners = [it for it in owners if re.search(r"\bfn\s+\w+\s*$", it["item"])]
+        use = fn_owners or owners
         src_line = lines[e["line"] - 1].strip() if 0 < e["line"] <= len(lines) else ""
         failures.append({
-            "item": (owner["file"] + " :: " + owner["item"]) if owner else None,
-            "props": owner["props"] if owner else [],
+            "item": (use[0]["file"] + " :: " + use[0]["item"]) if use else None,
+            "items": [it["file"] + " :: " + it["item"] for it in use],
+            "props": sorted({p for it in use for p in it["props"]}),
             "msg": e["msg"], "line": e["line"], "source": src_line, "text": e["text"],
         })
     if canary_line and not canary_failed:
